@@ -156,7 +156,7 @@ class P(Prop):
     ID = "C04"
     MODULE = "C04"
     THEOREMS = ["C04_end", "C04_hermite", "C04_fdx_flat", "C04_fdx_harmonic", "C04_end_slopes", "C04_segments", "C04_interior_slopes", "C04_count",
-                "C04_coefficient_float", "C04_cubic_deviation", "C04_interpolation_float"]
+                "C04_coefficient_float", "C04_cubic_deviation", "C04_interpolation_float", "C04_float_hypotheses_hold"]
     KERNELS = ["spline::f_dx", "spline::segment", "spline::f_x0", "spline::f_xn"]
     RULE = ("constrained_spline on 3..12 (thorough ..100) knots with strictly increasing x: monotone, oscillating, zig-zag, plateaued, "
             "collinear, nearly collinear, unevenly spaced (gap ratios up to 2^12), offset up to 2^20, a knot exactly at 0, abscissae in units of 1e-17..2^-80 (every dx << eps), gentle slopes (~1e-8), ordinates up to 1.1e308 over wide intervals "
@@ -189,6 +189,13 @@ class P(Prop):
             out.append(K.kernel_case("spline::f_dx", flat, cls="kernel/f_dx"))
             out.append(K.kernel_case("spline::segment", [rng.uniform(-3, 3), flat[0], flat[1], rng.uniform(-3, 3), flat[2], flat[3]], cls="kernel/segment"))
         return out
+
+    def hyp_term(self, case, h):
+        # hypotheses of C04_coefficient_float / C04_cubic_deviation (safe_run on the four coefficients) + the proved bound
+        # err_run against the exact deviation, in rational arithmetic
+        if case["op"] == "k" and case["name"] == "spline::segment":
+            return "hyp_safe_run_dev (tl %s) %s" % (C.kname(case["name"]), C.zlist(case["args"]))
+        return None
 
     def coq_term(self, case, h):
         if case["op"] == "k":
